@@ -6,6 +6,7 @@ Nothing in here looks at program text by pattern; the only text read from the so
 byte range of a node (for hashing in the evidence and for floating literal spellings)."""
 import hashlib
 import json
+import re
 import os
 import subprocess
 import sys
@@ -176,7 +177,10 @@ class AstDB:
             base = q
             p = _top_level_paren(base)
             head = base[:p] if p >= 0 else base
-            if not (head == qualname or head.endswith(' ' + qualname)):
+            if qualname.startswith('~'):
+                if not re.search(qualname[1:], head):
+                    continue
+            elif not (head == qualname or head.endswith(' ' + qualname)):
                 continue
             if sig and sig not in q:
                 continue
